@@ -9,6 +9,66 @@ HOOK_COMMITS = subprocess.run(
 
 # id -> (engine, level, technique, level text, level note, design ref)
 CHECKS = {
+ "C04": ("E4", "exploration",
+         "bounded-exhaustive enumeration of structurally generated rules (all ordered value lists per modifier, full absent/rep1/rep2 product across modifiers) x request alphabet against a reference matcher",
+         "Rules are generated as structures and rendered to text; an independent reference matcher (mask automaton on the proper target, party, content types, $domain with sub-domain and wildcard-TLD label-boundary semantics, $denyallow, $dnstype, $ctag, $client with names/addresses/CIDR/quoting) works on the structure, NetworkRule.Match on the text. Every ordered value list of length 1..3 (thorough 1..4) per modifier decides 'value order never matters' directly; the 3^9 product covers modifier interactions.",
+         "Trusted: rules.NewRequest for request fields (property C17); the C03 mask automaton as pattern reference (property C03). Value alphabets are finite (6-8 values per modifier).",
+         "DESIGN.md §3 C04"),
+ "C06": ("E4", "exploration",
+         "bounded-exhaustive enumeration of all multisets of matching rules, all permutations and list splits, against a reference precedence function",
+         "Every multiset of <=4 (thorough <=5) rules over a 25-symbol alphabet of request-level and referrer-level rules, each list in every distinct permutation through NewMatchingResult/GetBasicResult and GetDNSBasicRule, and every set of <=3 in every line order and every split into two lists through Engine, NetworkEngine and DNSEngine; the verdict class is compared with the documented precedence and the returned rule is never a rewrite, badfilter or stealth rule.",
+         "Trusted: the alphabet covers the features the precedence reads (exception, important, $domain, document-level modifiers, $dnsrewrite, $badfilter twins, $stealth); ties inside a class are not compared.",
+         "DESIGN.md §3 C06"),
+ "C07": ("E4", "exploration",
+         "exhaustive pair/triple check of the priority relation on a feature-complete rule pool via bit-matrix products; all permutations of candidate lists",
+         "The higher-priority relation is tabulated on a pool of 3840 rules (every combination of the features the comparison reads); irreflexivity, asymmetry, transitivity and transitivity of incomparability are decided for ALL pairs and triples of the pool by bit-matrix products, consistency with (class, specific, modifier count) for all pairs, 'adding a modifier raises priority' for every rule x addable modifier, and maximality of the selected rule for every list of <=3/<=4 priority-key representatives in every permutation.",
+         "Trusted: $redirect cannot be parsed and is outside the pool; modifier count = number of modifiers written.",
+         "DESIGN.md §3 C07"),
+ "C08": ("E4", "exploration",
+         "bounded-exhaustive enumeration: all ordered rule pairs x badfilter positions, all arrangements of k twins around base lists, engine layer",
+         "For every ordered pair of 35 structurally given rules and every position of the badfilter modifier the twin disables the other rule iff they are identical apart from badfilter (basic rules and $dnsrewrite rules); every base multiset with k<=2 (thorough 3) extra rules and their twins in every distinct arrangement leaves verdict class and priority key unchanged; no badfilter rule is ever returned; the same through Engine, NetworkEngine and DNSEngine.",
+         "Trusted: twins keep the value order inside a modifier.",
+         "DESIGN.md §3 C08"),
+ "C09": ("E4", "exploration",
+         "bounded-exhaustive enumeration of all rule sequences over the rewrite alphabet against a reference filter",
+         "Every sequence of length 0..4 (thorough 0..5) over 47 rewrite symbols (11 values x important x exception, empty-valued exceptions), every sequence of length 5..6 (7) over a 14-symbol sub-alphabet, and every sequence of <=3 (4) through the real DNSEngine; DNSRewrites() is compared with the reference filter as a sequence, is idempotent and leaves the result unchanged.",
+         "Trusted: the parsed rewrite values come from the rule parser (property C10).",
+         "DESIGN.md §3 C09"),
+ "C10": ("E4", "exploration",
+         "bounded-exhaustive enumeration of token sequences and of the structured rcode;rrtype;value product against the published shape predicate",
+         "Every concatenation of <=3 (thorough <=5) tokens over a 46-token alphabet and the product 7 rcodes x 17 record types x all space-joined values of <=3 (4) of 18 value tokens is parsed twice; every accepted value satisfies the RRValue shape predicate, parsing is deterministic and never panics.",
+         "Byte-level mutation/fuzzing is a different family and is not done; the claim is exhaustive up to the token bounds.",
+         "DESIGN.md §3 C10"),
+ "C11": ("E4", "exploration",
+         "bounded-exhaustive enumeration of list contents, encodings, backings and id assignments against a line-by-line reference parse",
+         "Every content of <=2 (thorough <=3) lines over 26 line kinds (incl. lines of 4094..8193 bytes around the 4 KiB block boundaries, UTF-8, NUL) x LF/CRLF x final newline x IgnoreCosmetic x String/File backing, and every injective assignment of ids from {0,1,-1,2,MaxInt32,MinInt32} to 1..4 lists: scan equals the reference parse, every index retrieves the scanned rule (reverse/forward, cold/cached), indexes are injective, String and File engines answer identically.",
+         "Trusted: rules.NewRule is the line parser on both sides; retrieval happens after the scan finished.",
+         "DESIGN.md §3 C11"),
+ "C12": ("E4", "exploration",
+         "bounded-exhaustive enumeration of token lines through every parser, matcher and engine; all noise placements in all short lists",
+         "Every line of <=3 (thorough <=4) tokens over 35 tokens goes through NewRule/NewNetworkRule/NewHostRule/NewCosmeticRule, every rule obtained is matched against 8 requests (twice, to take the compiled path) and engines of every kind are built from short lines: no panic, Text()==TrimSpace(line), list id kept. Every list of <=2 (3) of 10 rules with each of 11 noise lines at every non-empty subset of the gaps, LF and CRLF, answers exactly as the noise-free list.",
+         "Arbitrary byte strings / fuzzing are a different family; exhaustive up to the token bound only.",
+         "DESIGN.md §3 C12"),
+ "C15": ("E4", "exploration",
+         "exhaustive enumeration of all subsets of a cosmetic rule alphabet x hostnames x flag triples against CosmeticRule.Match over all rules",
+         "All 2^14 (thorough 2^16) subsets of element-hiding rules and exceptions in two line orders x 9 hostnames x all 8 flag triples through CosmeticEngine.Match and Engine.GetCosmeticResult; the Generic and Specific selector sets equal the reference computed with CosmeticRule.Match over all rules.",
+         "Trusted: CosmeticRule.Match as the definition of 'applies' (its domain helper is checked under C04); buckets compared as sets.",
+         "DESIGN.md §3 C15"),
+ "C17": ("E4", "exploration",
+         "exhaustive enumeration of hostnames over a label alphabet x URL shapes x sources against net/url and publicsuffix",
+         "Every hostname of 1..3 (thorough 1..4) labels over 16 labels x 3 schemes x 11 tails x 41 sources: Hostname equals net/url's, Domain equals the PSL eTLD+1 (or the hostname), ThirdParty iff registrable domains differ and is symmetric, URLLowerCase is the lower-cased capped URL; hostname requests likewise.",
+         "Only the label alphabet is covered, not every PSL rule; URLs the standard parser rejects are outside the quantifier.",
+         "DESIGN.md §3 C17"),
+ "C18": ("E4", "exploration",
+         "grammar expansion of hosts-file lines against an independent parse",
+         "Every line of the grammar address(7 forms incl. bare domain) x separators(4) x 1..3 (thorough 1..4, 5..8 over two names) names x 9 comment forms x 3 trailing blanks through NewRule, NewHostRule, HostRule.Match on listed/truncated/extended names and a one-line DNSEngine (IPv4/IPv6 grouping).",
+         "A double '#' is generated only after a space; results compared as sets.",
+         "DESIGN.md §3 C18"),
+ "C20": ("E4", "exploration",
+         "bounded-exhaustive enumeration of bodies (token sequences, window-edge placements, byte probes), plain and gzip, against a byte-level splice oracle",
+         "Every body of <=3 (thorough <=4) tokens over 24 tokens, every marker at offsets 16375..16386 with 0/1/7/100 high bytes before it, all 256 byte values alone/before/after a marker, each plain and gzip-encoded, through the real filterHTML: output == body[:i]+tag+body[i:] for the first in-window marker, else unchanged; Content-Length equals the new length; Content-Encoding removed.",
+         "With bytes >= 0x80 before the marker the window is ambiguous between original and transcoded offsets; both outcomes accepted in that band only. Bodies > 40 KiB and encodings other than gzip are not covered.",
+         "DESIGN.md §3 C20"),
  "C05": ("E3", "model_checking",
          "automata-based language inclusion: reachability in (DFA of the rule's compiled regexp/syntax.Prog x KMP automaton of the shortcut), violation = reachable accepting state with incomplete shortcut, witness confirmed on the real matcher",
          "For every rule (mask patterns up to the C03 token bound, every valid regular expression of <=3/<=4 tokens over a 21-token regex alphabet with alternation, groups, classes, escapes and quantifiers, and every regex rule of the bundled lists) emptiness of L(compiled) minus 'contains shortcut' is decided for ALL strings over graphic ASCII by exhaustive product reachability.",
